@@ -989,7 +989,7 @@ pub fn scenario_shape(tier: &str, base_seed: u64, g: u64) -> Scenario {
             }
         }
     };
-    let classes = ["code", "code", "code+eeprom", "code+eeprom", "eeprom-only", "empty", "comments", "fail", "fail", "missing", "part-file", "part-file", "shadowed-part-file", "patterned-data", "no-ram-device", "local-include", "large", "large", "gen-any", "not-utf8", "source-is-directory", "no-source-option", "unknown-option", "in-standard-includes"];
+    let classes = ["code", "code", "code+eeprom", "code+eeprom", "eeprom-only", "empty", "comments", "fail", "fail", "missing", "part-file", "part-file", "shadowed-part-file", "patterned-data", "no-ram-device", "local-include", "large", "large", "gen-any", "not-utf8", "source-is-directory", "no-source-option", "unknown-option", "in-standard-includes", "include-only-in-cwd-subdir"];
     let mut class = classes[r.usize(classes.len())].to_string();
     if class == "in-standard-includes" && !(form == "bare" && !has_raw(stem)) {
         class = "code+eeprom".into(); // only a bare, plain name can be looked up there
@@ -1069,7 +1069,23 @@ pub fn scenario_shape(tier: &str, base_seed: u64, g: u64) -> Scenario {
             let inc = format!("{}defs.inc", if srcdir.is_empty() { "".to_string() } else { format!("{}/", srcdir) });
             let body = if r.chance(1, 4) { ".equ speed = 9\n.error \"stop in include\"\n".to_string() } else { format!(".equ speed = {}\n.def tmp = r17\n", r.below(200)) };
             sc.files.insert(inc, body);
+            // a directory with a promising name in the working directory holds another file of
+            // that name: the tool passes the library the standard include directory and nothing else
+            if r.chance(1, 2) {
+                let d = ["includes", "include", "inc", "lib"][r.usize(4)];
+                let decoy = format!("{}{}/defs.inc", if cwd.is_empty() { String::new() } else { format!("{}/", cwd) }, d);
+                if !sc.files.contains_key(&decoy) {
+                    sc.files.insert(decoy, ".equ speed = 201\n.def tmp = r19\n    inc r3\n".to_string());
+                }
+            }
             Some(".include \"defs.inc\"\n    ldi tmp, speed\n.eseg\n.dw speed\n".to_string())
+        }
+        // the include exists only in such a directory: the library does not find it, so neither
+        // does the tool
+        "include-only-in-cwd-subdir" => {
+            let d = ["includes", "include", "inc"][r.usize(3)];
+            sc.files.insert(format!("{}{}/board.inc", if cwd.is_empty() { String::new() } else { format!("{}/", cwd) }, d), ".equ speed = 9\n.def tmp = r17\n".to_string());
+            Some(".include \"board.inc\"\n    ldi tmp, speed\n.eseg\n.dw speed\n".to_string())
         }
         "large" => {
             let j = if r.chance(2, 3) { 1 } else { r.range(2, 4) };
